@@ -494,7 +494,7 @@ func genCliCase(rng *rand.Rand) cliCase {
 func checkC15(a *checkArgs, r *Result) error {
 	gxz := os.Getenv("XZH_GXZ")
 	if gxz == "" {
-		gxz = "/verif/harness/gxz-bin"
+		gxz = verifRoot() + "/harness/gxz-bin"
 	}
 	if _, err := os.Stat(gxz); err != nil {
 		return fmt.Errorf("gxz binary %s missing: %v", gxz, err)
